@@ -21,6 +21,7 @@ import (
 	"verif/sched"
 	"verif/shim/vsync"
 
+	"google.golang.org/grpc"
 	"google.golang.org/grpc/metadata"
 )
 
@@ -38,6 +39,22 @@ type echoImpl struct {
 	mu   sync.Mutex // real mutex: the free-running pass calls handlers concurrently
 	kept []keptMsg
 	seen [][]byte // duplex calls: the payloads received, in order
+	// servedBy is a metadata object the handler owns and hands to SetHeader on every call (grpc-go
+	// does not take ownership of metadata passed to SetHeader): it must stay what it is
+	servedBy metadata.MD
+}
+
+// headers: SetHeader(the handler's constant metadata), then SendHeader(this call's own).
+func (e *echoImpl) headers(set func(metadata.MD) error, send func(metadata.MD) error, payload []byte) {
+	tag, _, ok := bytes.Cut(payload, []byte(":"))
+	if !ok {
+		tag, _, _ = bytes.Cut(payload, []byte(";"))
+	}
+	if e.servedBy == nil || len(tag) == 0 || len(tag) > 40 {
+		return
+	}
+	_ = set(e.servedBy)
+	_ = send(metadata.Pairs("x-req", string(tag)))
 }
 
 type keptMsg struct {
@@ -74,6 +91,7 @@ func (e *echoImpl) Unary(c *dyn.Call) (proto.Message, error) {
 	default:
 		fs := in.Descriptor().Fields()
 		setSBN(out, "", append([]byte(nil), in.Get(fs.ByName("b")).Bytes()...), 0)
+		e.headers(func(md metadata.MD) error { return grpc.SetHeader(c.Ctx, md) }, func(md metadata.MD) error { return grpc.SendHeader(c.Ctx, md) }, in.Get(fs.ByName("b")).Bytes())
 	}
 	e.keepReply(out)
 	sched.Point("handler step", nil)
@@ -119,6 +137,7 @@ func (e *echoImpl) Stream(c *dyn.Call) error {
 		return e.duplex(c, md.Get("x-duplex")[0])
 	}
 	// Upload / Bidi: echo every message
+	first := true
 	for {
 		m := dynamicpb.NewMessage(c.Desc.Input())
 		if err := c.Stream.RecvMsg(m); err != nil {
@@ -135,7 +154,11 @@ func (e *echoImpl) Stream(c *dyn.Call) error {
 		} else {
 			fs := in.Descriptor().Fields()
 			setSBN(out, "", append([]byte(nil), in.Get(fs.ByName("b")).Bytes()...), 0)
+			if first {
+				e.headers(c.Stream.SetHeader, c.Stream.SendHeader, in.Get(fs.ByName("b")).Bytes())
+			}
 		}
+		first = false
 		e.keepReply(out)
 		if err := c.Stream.SendMsg(out); err != nil {
 			return err
@@ -167,7 +190,7 @@ func newC13Sys() *c13Sys {
 	if err != nil {
 		panic(err)
 	}
-	impl := &echoImpl{t: c13T}
+	impl := &echoImpl{t: c13T, servedBy: metadata.Pairs("x-served-by", "echo")}
 	if err := m.VerifRegisterService(c13T.gsd, dyn.NewServer(impl)); err != nil {
 		panic(err)
 	}
@@ -307,6 +330,9 @@ func c13Request(s *c13Sys, thread int, kind string, size int) string {
 		}
 	default:
 		parts = append(parts, fmt.Sprintf("ct=%s body=%s", res.Header.Get("Content-Type"), c13Canon(res.Body)))
+	}
+	if v := res.Header.Values("X-Req"); len(v) > 0 || len(res.Header.Values("X-Served-By")) > 0 {
+		parts = append(parts, fmt.Sprintf("x-req=%q x-served-by=%q", v, res.Header.Values("X-Served-By")))
 	}
 	if strings.HasSuffix(kind, "-duplex") {
 		s.impl.mu.Lock()
@@ -458,6 +484,9 @@ func c13Scenario(kinds []string, sizes []int) *e3Scenario {
 			if s.obs[i] != want[i] {
 				fails = append(fails, e3Fail{"response-differs-from-solo-run", fmt.Sprintf("request %d (%s): alone it yields\n  %s\nconcurrently with %v it yields\n  %s", i, kinds[i], truncS(want[i], 400), kinds, truncS(s.obs[i], 400))})
 			}
+		}
+		if sb := s.impl.servedBy; len(sb) != 1 || len(sb["x-served-by"]) != 1 || sb["x-served-by"][0] != "echo" {
+			fails = append(fails, e3Fail{"handler-owned-metadata-changed", fmt.Sprintf("the metadata object the handler passes to SetHeader on every call is now %v", sb)})
 		}
 		for _, k := range s.impl.kept {
 			if !proto.Equal(k.live, k.clone) && k.reply {
